@@ -295,6 +295,22 @@ pub fn string_programs(quick: bool) -> Vec<(String, String)> {
             out.push((format!("stru{k}/0"), t.replace("#S", &lit(a))));
         }
     }
+    // `fromjson` / `tonumber` parse JSON *text held in a string* with a hand-written parser of their own: every
+    // string of <= 3 (quick) / 4 (thorough) tokens over an alphabet of JSON text fragments — in particular escapes
+    // cut off at every point (`\\u`, `\\ud83d`, `\\ude0`, a lone backslash) right at the end of the text.
+    let jt = ["\"", "\\", "\\u", "d83d", "\\ud83d", "\\ude00", "\\ude0", "\\u00e", "a", "1", "-", ".", "e", "[", "]", "{", "}", ":", ",", "tru", "null", " "];
+    let maxlen = if quick { 3 } else { 4 };
+    let mut idx = vec![0usize; 0];
+    let n = crate::c19space::nstrings(jt.len() as u64, maxlen);
+    for i in 0..n {
+        crate::c19space::nth_symbols(jt.len() as u64, i, &mut idx);
+        let text: String = idx.iter().map(|&k| jt[k]).collect();
+        out.push(("strj0/0".to_string(), format!("{} | fromjson", lit(&text))));
+        if idx.len() <= 3 {
+            out.push(("strj1/0".to_string(), format!("{} | tonumber", lit(&text))));
+            out.push(("strj2/0".to_string(), format!("[{}] | .[0] | fromjson?", lit(&text))));
+        }
+    }
     out
 }
 
